@@ -7,8 +7,8 @@ CONSTANTS
   Sanitizer = "intended"
   RawDeadlineLog = FALSE
   RawSites = {}
-  ConnectFailLog = "none"
+  ConnectFailLog = "sanitised"
   IngestPrintsRegistrant = {}
 VIEW view
-INVARIANTS TypeOK NoTaintAtSink NeverRaw SentinelsStable ConnectFailSilent
+INVARIANTS TypeOK NoTaintAtSink
 CHECK_DEADLOCK FALSE
